@@ -949,7 +949,7 @@ pub fn predict(before: &OForest, op: &Op) -> Option<OForest> {
         NewEl(n) => { f.fresh(OVal::El(*n)); Some(f) }
         NewText(s) => { f.fresh(OVal::Text(s.clone())); Some(f) }
         NewComment(s) => { f.fresh(OVal::Comment(s.clone())); Some(f) }
-        NewPi(n, d) => { f.fresh(OVal::Pi(*n, d.clone())); Some(f) }
+        NewPi(n, d) => { f.fresh(OVal::Pi(*n, d.clone().filter(|x| !x.is_empty()))); Some(f) }   // empty data is no data
         NewAttr(n, v) => { f.fresh(OVal::Attr(*n, v.clone())); Some(f) }
         NewNs(p, n) => { f.fresh(OVal::Ns(*p, *n)); Some(f) }
         _ => None,
